@@ -23,6 +23,7 @@ EXPLANATION = (
     "the shipped databases satisfy the uniqueness invariant (no two records share a formula or a SMILES) - exhaustive.  "
     "Correctness of decompose itself is C07."
     ' U4 also requires the bulk-add loop to iterate the entries parameter itself; (U6) the composition recorded by add_entry is decompose(smiles), whose element keys, atom set and charge follow C07-E1/E2/E3 (shared); (U7) the validity gate parses the SMILES with the same RDKit parser and sanitisation setting as decompose, so nothing decompose cannot build passes the gate.'
+    " (U8) every shipped record's composition is the composition of its SMILES (shared with C08-D1); U3 also requires that neither parameter of add_entry is rebound."
 )
 ASSUMPTIONS = ["list.append / list.remove mutate by exactly one element", "decompose is correct (C07)"]
 
